@@ -911,6 +911,168 @@ pub fn judge(group: &str, c: &Cfg) -> (String, Vec<Violation>) {
     (format!("built:{}opts", (ra.slla.len() + ra.mtu.len() + ra.pios.len() + ra.rdnss.len() + ra.dnssl.len() + ra.pref64.len() + ra.portal.len()).min(9)), vs)
 }
 
+// ---------------------------------------------------------------------------
+// On the wire: the real RaAdvService on a veth pair, solicited with a real RS frame
+// ---------------------------------------------------------------------------
+
+fn wire_cfgs(thorough: bool) -> Vec<(String, Cfg)> {
+    // the single-group products on the three base contexts (what the quick function part was
+    // before the pairwise products), with the interface facts of the veth rig
+    let gs = groups(thorough);
+    let mut out = vec![];
+    for ctx in 0..3 {
+        for top in [false, true] {
+            let b = base_cfg(ctx, top);
+            out.push((format!("base{ctx}"), b.clone()));
+            for (name, g) in &gs {
+                if *name == "mtu" {
+                    continue; // interface mtu / link-layer variations are facts of the rig here
+                }
+                let cap = if thorough { g.len() } else { g.len().min(60) };
+                for set in g.iter().take(cap) {
+                    let mut c = b.clone();
+                    set(&mut c);
+                    out.push(((*name).into(), c));
+                }
+            }
+        }
+    }
+    for (_, c) in out.iter_mut() {
+        c.ll = true;
+        c.if_mtu = Some(1500);
+    }
+    out
+}
+
+pub fn wire_cases(tier: &str) -> Vec<Value> {
+    let n = wire_cfgs(tier == "thorough").len();
+    let mut out = vec![];
+    let chunk = 150;
+    for route in ["none", "peer", "elsewhere"] {
+        let mut i = 0;
+        while i < n {
+            out.push(json!({"engine":"ewire","check":"c17","route":route,"from":i,"to":(i + chunk).min(n),"thorough":tier == "thorough"}));
+            i += chunk;
+        }
+    }
+    out
+}
+
+pub fn wire_run_case(case: &Value) -> crate::netrun::CaseResult {
+    use crate::ewire::*;
+    use crate::netrun::CaseResult;
+    if !crate::enet::ISOLATED.load(std::sync::atomic::Ordering::SeqCst) {
+        return CaseResult::machinery("the wire part needs a private network namespace (unshare failed)");
+    }
+    let route = match case["route"].as_str() {
+        Some("peer") => Route6::ViaPeerSide,
+        Some("elsewhere") => Route6::ViaElsewhere,
+        _ => Route6::None,
+    };
+    teardown_veth();
+    if let Err(e) = setup_veth(route) {
+        return CaseResult::machinery(format!("veth set-up: {e}"));
+    }
+    let mut res = CaseResult::ok(format!("wire:{}", case["route"].as_str().unwrap_or("")));
+    let cfgs = wire_cfgs(case["thorough"].as_bool().unwrap_or(false));
+    let (from, to) = (case["from"].as_u64().unwrap_or(0) as usize, case["to"].as_u64().unwrap_or(0) as usize);
+    let mut w = match WireRt::new() {
+        Ok(w) => w,
+        Err(e) => return CaseResult::machinery(e),
+    };
+    crate::common::clock::set_secs(1_700_000_000);
+    let netinfo = w.rt.block_on(erbium_net::netinfo::SharedNetInfo::new());
+    w.pump(4);
+    let mut wire = match Wire::open() {
+        Ok(x) => x,
+        Err(e) => return CaseResult::machinery(e),
+    };
+    let mut n = 0u64;
+    let mut answered = 0u64;
+    for (group, c) in cfgs.iter().take(to).skip(from) {
+        let yaml = yaml_of(c);
+        let Ok(Ok(conf)) = panics::catch(|| erbium::config::verif_load_config_from_string(&yaml)) else {
+            continue; // rejections and loader panics are judged by the function part
+        };
+        n += 1;
+        let sub = json!({"engine":"ewire","check":"c17","route":case["route"],"group":group,"yaml":yaml});
+        let mk = |oracle: &str, what: String| Violation::new(oracle, format!("on the wire (default route: {}): {what}", case["route"].as_str().unwrap_or("")), sub.clone()).sig("oracle", oracle).sig("part", "wire");
+        let svc = {
+            let _g = w.rt.enter();
+            match RaAdvService::new(netinfo.clone(), conf) {
+                Ok(s) => std::sync::Arc::new(s),
+                Err(e) => return CaseResult::machinery(format!("RaAdvService::new: {}", e)),
+            }
+        };
+        let h = w.rt.spawn(svc.clone().run());
+        w.pump(6);
+        wire.poll();
+        let mark = wire.rx.len();
+        if let Err(e) = wire.send(&rs_frame(&PEER_MAC, true)) {
+            return CaseResult::machinery(e);
+        }
+        let mut got: Option<(std::net::Ipv6Addr, std::net::Ipv6Addr, u8, Vec<u8>, bool)> = None;
+        for _ in 0..200 {
+            w.pump(3);
+            wire.poll();
+            for f in &wire.rx[mark..] {
+                if let Some((smac, src, dst, hop, icmp, ok)) = as_ra(f) {
+                    if smac == SRV_MAC {
+                        got = Some((src, dst, hop, icmp, ok));
+                        break;
+                    }
+                }
+            }
+            if got.is_some() {
+                break;
+            }
+        }
+        h.abort();
+        drop(svc);
+        w.pump(3);
+        wire.rx.clear();
+        let ps = panics::take_all();
+        let Some((src, dst, hop, icmp, ck_ok)) = got else {
+            res.violations.push(mk("no-advertisement", format!("a router solicitation got no router advertisement{}", ps.first().map(|p| format!(" (service task panicked: {} at {})", p.msg, panics::short_loc(&p.loc))).unwrap_or_default())));
+            continue;
+        };
+        answered += 1;
+        if !ck_ok {
+            res.violations.push(mk("icmp-checksum", "the ICMPv6 checksum of the advertisement does not verify".into()));
+        }
+        if hop != 255 {
+            res.violations.push(mk("ip-hop-limit", format!("the advertisement was sent with IPv6 hop limit {hop}, RFC 4861 requires 255")));
+        }
+        if src != ll_of(&SRV_MAC) {
+            res.violations.push(mk("ra-source", format!("the advertisement's source {src} is not the interface's link-local address {}", ll_of(&SRV_MAC))));
+        }
+        let all_nodes: std::net::Ipv6Addr = "ff02::1".parse().unwrap();
+        if dst != all_nodes && dst != ll_of(&PEER_MAC) {
+            res.violations.push(mk("ra-destination", format!("the advertisement went to {dst}, neither all-nodes nor the solicitor")));
+        }
+        match decode_ra(&icmp) {
+            Err(e) => res.violations.push(mk("rfc-format", format!("RFC decoder rejects the advertisement: {e}"))),
+            Ok(ra) => {
+                // what the configuration means in THIS environment: an interface without a
+                // configured lifetime is a default router only if the default route leaves elsewhere
+                let mut c2 = c.clone();
+                if c2.lifetime_unspecified {
+                    c2.lifetime.want = Want::Is(if route == Route6::ViaElsewhere { DEFAULT_LIFETIME as u16 } else { 0 });
+                }
+                for (oracle, what) in compare(&c2, &ra) {
+                    res.violations.push(mk(oracle, what));
+                }
+            }
+        }
+    }
+    drop(wire);
+    drop(w);
+    teardown_veth();
+    crate::common::clock::unset();
+    res.stats = json!({"wire_configs": n, "wire_advertisements": answered});
+    res
+}
+
 pub fn run(tier: &str, replay: Option<Value>) -> ! {
     let mut rep = Report::new("C17", if replay.is_some() { "quick" } else { tier }, "exploration");
     let thorough = tier == "thorough";
@@ -918,6 +1080,21 @@ pub fn run(tier: &str, replay: Option<Value>) -> ! {
     if let Some(case) = replay {
         rep.replay_mode = true;
         let case = if case.get("case").is_some() { case["case"].clone() } else { case };
+        if case["engine"].as_str() == Some("ewire") {
+            // one configuration on the wire: find it in the wire list and run a one-element slice
+            crate::enet::isolate_network();
+            let th = true;
+            let list = wire_cfgs(th);
+            let y = case["yaml"].as_str().unwrap_or("");
+            match list.iter().position(|(_, c)| yaml_of(c) == y) {
+                Some(i) => {
+                    let one = json!({"engine":"ewire","check":"c17","route":case["route"],"from":i,"to":i + 1,"thorough":th});
+                    crate::netrun::replay_one(&mut rep, &one, wire_run_case);
+                }
+                None => rep.machinery_error("replay case not found in the wire list"),
+            }
+            rep.finish();
+        }
         let y = case["yaml"].as_str().unwrap_or("");
         let mut hit = false;
         for (g, c) in &cfgs {
@@ -953,13 +1130,19 @@ pub fn run(tier: &str, replay: Option<Value>) -> ! {
             rep.violation(v);
         }
     }
-    rep.cov("evaluations", cfgs.len() as u64);
+    // the same oracle on advertisements captured from the real service on a veth pair
+    let agg = crate::netrun::run_sharded(&mut rep, "C17", tier, wire_cases, 16);
+    let wire_n = agg.stats_sum.get("wire_advertisements").copied().unwrap_or(0.0) as u64;
+    rep.cov("wire_configurations_loaded", agg.stats_sum.get("wire_configs").copied().unwrap_or(0.0) as u64);
+    rep.cov("wire_advertisements_judged", wire_n);
+    rep.cov("wire_rule", "the real RaAdvService (real netlink-fed NetInfo, real raw ICMPv6 socket) on one end of a veth pair in a private network namespace, one instance per configuration; a router solicitation frame is sent from the other end and the advertisement captured there is decoded by the same RFC decoder and compared with expected(configuration, environment), for three environments: no IPv6 default route, default route out of the advertising interface, default route out of another interface. Also judged: ICMPv6 checksum, IPv6 hop limit 255, link-local source, destination");
+    rep.cov("evaluations", cfgs.len() as u64 + wire_n);
     rep.cov("distinct_nontrivial", distinct_yaml.len() as u64);
     rep.cov("rule", "interface configurations from the grammar (full product inside each group: header, timers, mtu x interface-mtu x lladdr, prefix lists of length <=2 (thorough <=3) over 7 prefixes, rdnss x lifetime, dnssl x lifetime, pref64 x lifetime, captive portal) x top-level defaults {absent,present} x 3 base contexts {all absent, all present, all null}; the full product of every PAIR of groups (prefix lists cut to length <=1, timers sampled every 5th); thorough also every TRIPLE of the groups with <= 60 entries; distinct = distinct YAML documents that reached the loader");
     rep.cov("exhaustive", true);
     rep.cov("outcome_classes", json!(classes));
     rep.cov("samples", pick_samples(&samples, 6, rep.seed));
-    rep.assume("the hook verif_build repeats the two 4-line matches of build_announcement that map the mtu/lifetime ConfigValue onto the values netinfo would supply; RA emission on the wire is not executed");
+    rep.assume("function part: the hook verif_build repeats the two 4-line matches of build_announcement that map the mtu/lifetime ConfigValue onto the values netinfo would supply (the wire part executes the real build_announcement)");
     rep.assume("don't-care: default RDNSS/DNSSL lifetimes (manual and code disagree), empty RDNSS/DNSSL option present vs absent, option order across option types");
     rep.finish()
 }
